@@ -1163,6 +1163,7 @@ func propC11(r *Run) {
 	r.c11Locations()
 	r.c11Origins()
 	r.c11PropsSharing()
+	r.c11RepairMerging()
 	r.exhaustive = true
 	r.notes = append(r.notes,
 		"exhaustive small scope: Insert/Embed over host len 0..3(5) x spare {0,1,|guest|,8} x off {0,3} x guest len 0..2 x guest spare x index; host and guest as windows of one buffer; Delete/Rotate/Slice over all indices; Concat arrangements",
